@@ -104,20 +104,72 @@ def c19_py_computed(prop="C19", tier="quick", seed=0, **kw):
             if quick and rec == SH.FLOAT_RECORD and f.startswith("l_") and f != "l_pow_pow":
                 continue     # left-nested float shapes are emitted without parentheses by construction of Python's grammar: thorough tier
             jobs.append(_job("h_c19_shape", "c19:%s.%s" % (rec, f), b, rec=rec, field=f))
+    # numpy operands: elements of array fields (and scalar fields holding numpy scalars) have numpy's fixed-width arithmetic
+    # (harness/py/c19numpy.py, model models/c19computed/npelems.yml, numpy model engine/pysym/npmodel.py)
+    from harness.py import c19numpy as CN
+    nrecs = ["NpI8", "NpU8", "NpU16", "NpI32"] if quick else list(CN.NP_RECS)
+
+    def njob(h, label, **params):
+        j = _job(h, label, b, **params)
+        j["harness"] = "harness.py.c19numpy:" + h
+        return j
+    from harness.py import generated as _HG
+    _HG.prepare(["c19computed"])
+    gtypes = _HG._GEN["c19computed"]["nat"].types
+    for rec in nrecs:
+        for f in CN.NP_FIELDS:
+            if not hasattr(getattr(gtypes, rec), f):
+                continue          # operator without a common type for this element type (not in the model)
+            jobs.append(njob("h_c19_np", "c19np:%s.%s" % (rec, f), rec=rec, field=f))
+            if f in CN.USES_SCALARS:
+                jobs.append(njob("h_c19_np", "c19np:%s.%s/np-scalars" % (rec, f), rec=rec, field=f, scalars="np"))
+        if hasattr(getattr(gtypes, rec), "elem_times_double"):
+            jobs.append(njob("h_c19_np_float", "c19np:%s.elem_times_double" % rec, rec=rec))
+    for rec in recs:
+        for f in HG.INT_FIELDS:
+            if quick and rec in ("RecI32", "RecI64") and ("mul" in f or f == "prod"):
+                continue      # deciding whether a 32 x 32-bit product overflows costs 5-15 s per query: thorough tier (RecU8 and the Np* records keep the products)
+            jobs.append(njob("h_c19_int_np", "c19np:%s.%s" % (rec, f), rec=rec, field=f))
     for j in jobs:
         if "xcheck_every" in j["limits"]:
             j["limits"]["xcheck_every"] = 2     # few queries per job here: cross-check every second one
     expected = ["computed.no-exception-for-in-range-operands", "computed.int-division==truncated-quotient", "computed.int-expression==mathematical-value",
-                "computed.float-expression==ieee-value", "computed.size==length", "computed.nested-expression==value-of-the-expression-tree"]
+                "computed.float-expression==ieee-value", "computed.size==length", "computed.nested-expression==value-of-the-expression-tree",
+                "computed.numpy-operands==mathematical-value"]
     bounds = {"records": recs, "integer_operands": "symbolic over the full range of the field type (int64 products: |a|,|b| <= 2^38)",
               "floats": "concrete pool %s x itself" % HG.FPOOL, "pow/mixed integer operands": "concrete pool %s" % HG.IPOOL,
               "nested shapes": "(a op1 b) op2 c and a op2 (b op1 c) for all op1, op2 in {+,-,*,/,**}, unary minus on either operand / on the result; records %s; "
                                "power-free integer shapes: a, b, c symbolic over the field type (|operand| <= 2^38 / 2^24 with one / two products), divisions restricted to non-zero divisors and to "
                                "non-negative dividends (where // and C++ / agree); power and floating-point shapes: operands from pools %s / %s / %s decided by forking" % (
                                    srecs, HG.SH_IPOOL, HG.SH_UPOOL, HG.SH_FPOOL),
-              "in-range": "exact value and every parenthesised intermediate inside the static result type given by the generated return annotation; divisors non-zero"}
-    return _run("c19_py_computed", prop, jobs, bounds, expected, ["c19computed"],
-                extra_assume=["C19 oracle: mathematical value of the model expression; integer division truncates toward zero (C++ semantics); float operators are IEEE double operations"])
+              "in-range": "exact value and every parenthesised intermediate inside the static result type given by the generated return annotation; divisors non-zero",
+              "numpy operands": "records %s: computed fields over elements of T[] / T[3] / T[r:2, c:2] array fields (numpy scalars of the element type; 2-d array in C / Fortran / transposed layout), vector elements, "
+                                "and int64 / uint64 / int32 / T scalar fields holding Python ints or numpy scalars; operands symbolic over their whole type (operands of a product: |v| <= 2^38); "
+                                "element division restricted to non-negative dividend / positive divisor; array element x float64 from pools; "
+                                "records %s also with numpy scalars in the fields a, b" % (nrecs, recs)}
+    part = _run("c19_py_computed", prop, jobs, bounds, expected, ["c19computed"],
+                extra_assume=["C19 oracle: mathematical value of the model expression; integer division truncates toward zero (C++ semantics); float operators are IEEE double operations",
+                              "C19 numpy operands: numpy integer scalars are modelled (engine/pysym/npmodel.py NpInt: result dtype by np.result_type, + - * wrap modulo 2^bits, Python-int operands are "
+                              "converted to the numpy operand's dtype or raise OverflowError, // floors with x // 0 == 0); the model is compared with real numpy on concrete values (lemma below) and "
+                              "by the native replay of every path"])
+    _np_lemma(part, 4 if quick else 1)
+    return part
+
+
+def _np_lemma(part, stride):
+    """the numpy integer scalar model against real numpy on concrete operands (no code under test involved)"""
+    from engine.pysym import npmodel
+    t0 = time.time()
+    rep = {}
+    bad = npmodel.selftest(rep, stride)
+    ob = {"id": "numpy.lemma scalar-model==numpy", "paths": 1, "queries": 0, "unsat": 0, "sat": 0, "unknown": 0, "concrete_cases": rep.get("cases", 0),
+          "status": "holds" if not bad else "inconclusive",
+          "note": "NpInt evaluated on concrete operands equals numpy %s: 8-bit types pairwise (every %s left operand) for + - * // %% and comparisons, mixed widths, Python-int operands in and out of range, unary operators, scalar constructors" % (
+              __import__("numpy").__version__, "single" if stride == 1 else "%d-th" % stride)}
+    part["obligations"].append(ob)
+    for m in bad[:5]:
+        part["inconclusive"].append("numpy scalar model differs from numpy: " + m)
+    part["wall_s"] = round(part["wall_s"] + time.time() - t0, 2)
 
 
 def c01_py_generated(prop="C01", tier="quick", seed=0, **kw):
